@@ -158,7 +158,7 @@ CHECKS["C01"] = dict(
         "proof; (U) the prover's pre-evaluated boundary constraints use constraint-evaluation-domain units; (X, A) the FRI verifier exempts the "
         "remainder from the divisibility test, tests the bound of the current layer, and agrees with the prover on the layer schedule; (COLS) "
         "the number of composition columns is max(1, ceil((D+1)/trace_length)) for the composition degree D, compared symbolically on a grid "
-        "containing the multiples of the trace length. (WIDTH) no length prefix of a proof component truncates the length of an ordinary legal proof; (DERIVED) a field computed at construction from the variable that initialises another field is re-assigned by every setter of that field (no stale cached column count); (SENT) the FRI remainder placed in the proof is the committed one.",
+        "containing the multiples of the trace length. (WIDTH) no length prefix of a proof component truncates the length of an ordinary legal proof; (DERIVED) a field computed at construction from the variable that initialises another field is re-assigned by every setter of that field (no stale cached column count); (SENT) the FRI remainder placed in the proof is the committed one; (FOLDABLE) the FRI proof parser's foldability test looks at the domain of the layer being parsed; (DEG) the prover's degree checks on the DEEP composition polynomial are upper bounds, so valid degenerate traces (constant columns) do not make the honest prover panic (genuine defect F33, repaired).",
    design_ref="DESIGN.md §3 C01")
 CHECKS["C06"] = dict(
    technique="static analysis: inter-procedural, path-sensitive abstract interpretation of MIR (intervals + power-of-two + lengths + variant sets + relational facts on tagged values) with taint from the byte readers",
